@@ -178,7 +178,8 @@ def solve_games(ctx, inp, games, model, limit):
                                                     e["probabilities"], e["n_iterations_reach"], e["n_iterations_rew"],
                                                     e["prob_min_rew"], e["rew_min_reach"]]}
                     model.add("solve", dict(wire.game_payload(g), prune=prune, fuel=e["n_iterations_rew"] + e["n_iterations_reach"] + 50),
-                              expect=exp, inp=dict(inp, game=name, prune=prune), suite="corr.genfile.solve")
+                              expect=exp, inp=dict(inp, game=name, prune=prune), suite="corr.genfile.solve",
+                              cmp=wire.staged(ctx, {"outcome"}))
 
 
 def check_params(ctx, p, model=None, limit=4.0, solve=True):
